@@ -1,7 +1,9 @@
 """C01 — job id = MD5 of canonical JSON, order independent (DESIGN §4 C01)."""
 import hashlib
 import itertools
+import copy
 import json
+from harness.ws_common import _scribble
 import os
 import random
 import re
@@ -198,7 +200,17 @@ def run_case(case, ctx):
         for x in seq:
             plainx = json.loads(json.dumps(x))
             try:
-                got = project.open_job(x).id
+                # the caller keeps and mutates its own (list / tuple / dict) spelling after the call: the id
+                # is the hash of the VALUE at open time and the job's state point stays that value
+                mine = copy.deepcopy(x) if isinstance(x, dict) else x
+                job = project.open_job(mine)
+                got = job.id
+                if isinstance(mine, dict):
+                    _scribble(mine)
+                    later = calc_id(job.statepoint())
+                    if later != got or job.id != got:
+                        oracle.append("open_job(%r): id %s, but after the caller mutated its own mapping the job's state "
+                                      "point hashes to %s (id now %s)" % (x, got, later, job.id))
             except Exception as e:
                 got = "EXC:" + exc_name(e)
             model.append("id " + enc_val(plainx))
